@@ -50,6 +50,7 @@ func main() {
 	dumpCalls := flag.String("dump-calls", "", "debug: print the call facts collected from this entry point")
 	dumpWrites := flag.String("dump-writes", "", "debug: print the input writes reachable from this entry point")
 	dumpSinks := flag.String("dump-sinks", "", "debug: print panic sinks reachable from this entry point")
+	dumpWire := flag.String("dump-wire", "", "debug: print wire programs whose name contains this string")
 	dumpGuards := flag.String("dump-guards", "", "debug: print the guards collected from this entry point")
 	flag.Parse()
 	// go/packages resolves "go" through this process's PATH: force the toolchain that satisfies /repo's go directive
@@ -154,6 +155,21 @@ func main() {
 				for _, c := range s.Conds {
 					fmt.Printf("      given %s\n", c)
 				}
+			}
+		}
+		return
+	}
+	if *dumpWire != "" {
+		p, err := Load(LoadConfig{Repo: *repo, GOARCH: *arch})
+		if err != nil {
+			fmt.Println("load:", err)
+			os.Exit(2)
+		}
+		progs := ExtractWirePrograms(p)
+		for _, n := range sortedKeys(progs) {
+			if strings.Contains(n, *dumpWire) {
+				b, _ := json.Marshal(progs[n].Ops)
+				fmt.Printf("%s [%s] %s\n", n, progs[n].Side, b)
 			}
 		}
 		return
